@@ -57,7 +57,7 @@ def findings_table():
 
 def seeded_table():
     rows = ["| seed | change (first lines of the author's notes) | needs to manifest | caught by | how |", "|---|---|---|---|---|"]
-    for pid in ALL:
+    for pid in ALL + [d for d in sorted(os.listdir(os.path.join(VERIF, "seeded"))) if "-" in d and os.path.isdir(os.path.join(VERIF, "seeded", d))]:
         sd = os.path.join(VERIF, "seeded", pid, "meta.json")
         if not os.path.exists(sd):
             continue
